@@ -121,3 +121,9 @@ func Assert(label string, c bool) {
 func Reach(label string) {}
 func Note(s string)      {}
 func Symbolic() bool     { return false }
+
+func FreezeDeep(root interface{}, what string)    {}
+func FreezeShallow(root interface{}, what string) {}
+func FreezeGlobals()                              {}
+func FrozenWrites() int                           { return 0 }
+func FrozenWriteNote() string                     { return "" }
